@@ -230,6 +230,9 @@ def tensor_hash(t) -> str:
     t = t.detach()
     if hasattr(t, "to_local"):
         t = t.to_local()
+    if t.is_floating_point() and t.numel() and bool(torch.isnan(t).any()):
+        # every NaN is the same NaN (sign and payload bits are not a property of the computation)
+        t = torch.where(torch.isnan(t), torch.full_like(t, float("nan")), t)
     return hashlib.sha1(t.contiguous().reshape(-1).view(torch.uint8).numpy().tobytes()).hexdigest()[:16] if t.numel() else "empty"
 
 
